@@ -1,12 +1,101 @@
 (* C20 - deprecating a class keeps identifiers and makes old results reachable.
-   Statements only; every proof is `exact <lemma>`.                        *)
+   Statements only; every proof is `exact <lemma>`.
+
+   Workspace half (model/Deprecate.v, the repair command `deprecated list --fix [--cleanup]`):
+     w            the content of <workdir>/jobs : (type, id) |-> Dir data | Link target
+     fix_ws f c o1 o2 w   fix_deprecated(path, fix=f, cleanup=c) as repaired by fixes/C20-1, C20-2;
+                          o1, o2 = the order in which the two glob() loops examine the entries
+                          (chosen by the file system: every theorem holds for all orders)
+     fix_ws_prefix        the same command at the pinned commit, literally
+     wf w         no path is listed twice;   active w k d n : k is a directory with a params.json
+                  whose recomputed identity n has another identifier than its name.
+   The identifier half (deprecated_same_ident, on model/Hash.v) is added at the end of this file. *)
 From Coq Require Import ZArith List Bool Permutation.
 From XV Require Import model.Deprecate proofs.Deprecate_lemmas.
 Import ListNotations.
 Open Scope Z_scope.
 
+(* never deletes job data: the directories are the same collection before and after, each with the same
+   payload / params.json / recomputed identity, and no .done marker disappears -- for every workspace,
+   both modes, with or without --fix, every examination order *)
 Theorem C20_fix_preserves_data : forall fx cl o1 o2 w,
   Permutation (map core (dirs (fix_ws fx cl o1 o2 w))) (map core (dirs w)) /\
   Forall2 (fun d d' => d_mark d = d_mark d' /\ incl (d_done d) (d_done d')) (dirs w) (dirs (fix_ws fx cl o1 o2 w)).
 Proof. exact fix_preserves_data. Qed.
 Print Assumptions C20_fix_preserves_data.
+
+(* ... which also holds for the command of the pinned commit *)
+Theorem C20_prefix_preserves_data : forall fx cl o1 o2 w,
+  Forall2 (fun d d' => core d = core d' /\ incl (d_done d) (d_done d')) (dirs w) (dirs (fix_ws_prefix fx cl o1 o2 w)).
+Proof. exact (run_preserves false). Qed.
+Print Assumptions C20_prefix_preserves_data.
+
+(* makes old results reachable: a directory stored under a former identifier, whose new path is free or
+   already links to it (a previous repair) and is claimed by no other directory, is afterwards reachable
+   under the new path -- through a link to k (always so without --cleanup) or because it was moved --
+   and a submit of the replacement finds the old result (its .done marker is visible under the new name) *)
+Theorem C20_fix_reaches : forall cl o1 o2 w k d n,
+  wf w -> active w k d n -> In k o2 ->
+  (lookup n w = None \/ lookup n w = Some (Link k)) ->
+  (forall k2 d2, lookup k2 w = Some (Dir d2) -> d_recomp d2 = Some n -> k2 = k) ->
+  let w' := fix_ws true cl o1 o2 w in
+  exists kf d', resolve w' n = Some (kf, d') /\ core d' = core d /\ incl (d_done d) (d_done d') /\
+    (In (k_name k) (d_done d) -> found w' n = true) /\ (cl = false -> kf = k).
+Proof. exact fix_reaches. Qed.
+Print Assumptions C20_fix_reaches.
+
+(* without --cleanup the new path of every examined stale directory exists afterwards, whatever was there ... *)
+Theorem C20_fix_link_total : forall w o1 o2 k d n, wf w -> In k o2 -> active w k d n ->
+  exists_ (fix_ws true false o1 o2 w) n = true.
+Proof. exact fix_link_total. Qed.
+Print Assumptions C20_fix_link_total.
+
+(* ... and whatever a path led to before, it still leads to: a new path occupied by different data is left as
+   it is, no link of the user is replaced (only dangling links are) *)
+Theorem C20_fix_link_untouched : forall o1 o2 w x kx dx,
+  resolve w x = Some (kx, dx) ->
+  exists dx', resolve (fix_ws true false o1 o2 w) x = Some (kx, dx') /\ core dx' = core dx /\ incl (d_done dx) (d_done dx').
+Proof. exact fix_link_untouched. Qed.
+Print Assumptions C20_fix_link_untouched.
+
+(* running the repair again changes nothing (any two examination orders that cover the directories) *)
+Theorem C20_fix_idempotent : forall w o1 o2 o1' o2', wf w -> covers w o2 ->
+  fix_ws true false o1' o2' (fix_ws true false o1 o2 w) = fix_ws true false o1 o2 w.
+Proof. exact fix_idempotent. Qed.
+Print Assumptions C20_fix_idempotent.
+
+(* with --cleanup: on workspaces whose links all point directly at job directories (what the repair itself
+   creates) and where no directory sits on the new path of another one, a second call changes nothing *)
+Theorem C20_fix_idempotent_cleanup : forall w o1 o2 o1' o2',
+  wf w -> direct w -> clear w -> (forall k e, lookup k w = Some e -> In k o1) -> covers w o2 ->
+  fix_ws true true o1' o2' (fix_ws true true o1 o2 w) = fix_ws true true o1 o2 w.
+Proof. exact cleanup_idempotent. Qed.
+Print Assumptions C20_fix_idempotent_cleanup.
+
+(* a listing call (no --fix) leaves the workspace as it is, with or without --cleanup *)
+Theorem C20_list_only_unchanged : forall cl o1 o2 w, fix_ws false cl o1 o2 w = w.
+Proof. exact list_only_unchanged. Qed.
+Print Assumptions C20_list_only_unchanged.
+
+(* records of the two defects of the pinned commit (fixes/C20-1.diff, fixes/C20-2.diff) *)
+Theorem C20_resubmit_refuted : exists o2 w k d n,
+  wf w /\ active w k d n /\ In k o2 /\ lookup n w = None /\
+  (forall k2 d2, lookup k2 w = Some (Dir d2) -> d_recomp d2 = Some n -> k2 = k) /\
+  In (k_name k) (d_done d) /\
+  (forall cl, exists_ (fix_ws_prefix true cl [] o2 w) n = true /\ found (fix_ws_prefix true cl [] o2 w) n = false).
+Proof. exact resubmit_refuted. Qed.
+Print Assumptions C20_resubmit_refuted.
+
+Theorem C20_cleanup_nofix_refuted : exists o1 o2 w n,
+  wf w /\ found w n = true /\ found (fix_ws_prefix false true o1 o2 w) n = false.
+Proof. exact cleanup_nofix_refuted. Qed.
+Print Assumptions C20_cleanup_nofix_refuted.
+
+(* limit of the --cleanup mode (both versions): without the shape hypotheses a second call may change the tree *)
+Theorem C20_cleanup_twice_refuted : exists o w,
+  wf w /\ (forall k e, lookup k w = Some e -> In k o) /\
+  fix_ws true true o o (fix_ws true true o o w) <> fix_ws true true o o w.
+Proof. exact cleanup_twice_refuted. Qed.
+Print Assumptions C20_cleanup_twice_refuted.
+
+(* ---- identifier half: `deprecated_same_ident` (model/Hash.v) goes below this line ---- *)
